@@ -303,6 +303,18 @@ func Atlas() []*spec.Program {
 		root := M("Root", nil, F("S", "msg:Sub"), F("T", "msg:Sub", nn()))
 		out = append(out, prog("a_embedsub", convProps, baseConfig("Root"), nil, emb, sub, root))
 	}
+	// --- a nested message all of whose fields are excluded (no attribute left, no placeholder either)
+	{
+		leaf := M("Bare", nil, F("A", "string"), F("B", "int64"))
+		root := M("HasBare", nil, F("Name", "string"), F("One", "msg:Bare"), F("OneV", "msg:Bare", nn()), F("Many", "msg:Bare", rep()), F("ByKey", "map:msg:Bare"), F("ByKeyV", "map:msg:Bare", nn()))
+		cfg := baseConfig("HasBare")
+		cfg.ExcludeFields = []string{"Bare.A", "Bare.B"}
+		out = append(out, prog("a_allexcl", convProps, cfg, nil, leaf, root))
+		// a message whose only field is an embedded message without fields: its one attribute is the promoted placeholder
+		out = append(out, prog("a_embedonlyempty", convProps, baseConfig("HasWrap"), nil, M("Nothing", nil),
+			M("WrapV", nil, F("Nothing", "msg:Nothing", embed(), nn())), M("WrapP", nil, F("Nothing", "msg:Nothing", embed())),
+			M("HasWrap", nil, F("Name", "string"), F("V", "msg:WrapV"), F("Vs", "msg:WrapV", rep()), F("P", "msg:WrapP", nn()), F("Pm", "map:msg:WrapP"))))
+	}
 	// --- custom types
 	{
 		root := M("Customs", nil,
@@ -318,7 +330,7 @@ func Atlas() []*spec.Program {
 			F("Plain", "string"))
 		cfg := baseConfig("Customs")
 		// near-miss keys: only an exact key is a suffix entry / a custom type entry
-		cfg.Suffixes = map[string]string{"CustomBool": "BoolSpecial", "CastLabel": "Lbl", "IntList": "DecoyA", "pkg.IntList": "DecoyB", "custombool": "DecoyCase", "Custom": "DecoyPrefix"}
+		cfg.Suffixes = map[string]string{"CustomBool": "Bool_Special", "CastLabel": "Lbl_v2", "IntList": "DecoyA", "pkg.IntList": "DecoyB", "custombool": "DecoyCase", "Custom": "DecoyPrefix"}
 		cfg.CustomTypes = map[string]string{"Customs.ByConfig": "StringCustom", "Customs.ByConfigList": "some/pkg.IntList", "Customs.CastCfg": "CastLabel", "Customs.CastCfgList": "CastInts", "ByConfig": "DecoyType", "Customs.Plain.": "DecoyType", "customs.plain": "DecoyType"}
 		cfg.ComputedFields = []string{"Customs.CustP", "Customs.ByConfig"}
 		cfg.RequiredFields = []string{"Customs.CustStr"}
